@@ -1,7 +1,7 @@
 (* Prop_C02.v — property theorems for C02, and nothing else: each statement is closed
    by `exact <lemma>` and followed by Print Assumptions. *)
 From Dig Require Import Base Sig State Graph GraphProofs Register Resolve Run Spec Check
-  ErrTable Err ErrTableCheck P_Once P_Frame P_Term GoTypes Parse RunRaw P_Glue ResolveRe RunRe P_Re.
+  ErrTable Err ErrTableCheck P_Once P_Frame P_Term GoTypes Parse RunRaw P_Glue ResolveRe RunRe P_Re P_Re2.
 
 (* ---- C02: singletons.  wf_keys: single keys carry no group name, group keys
         carry one (what every parsed signature satisfies, P_Parse.C09_provide_keys) ---- *)
@@ -76,3 +76,29 @@ Theorem C02_reentrant_never_bug : forall cfg b nest du h,
     match so_verdict o with VAbort (ABug _) => False | _ => True end.
 Proof. exact P_Re.run_re_never_bug. Qed.
 Print Assumptions C02_reentrant_never_bug.
+
+(* ---- C02 for re-entrant user code, in full: under RecoverFromPanics (every user panic is
+        caught by the frame that ran it, so nothing unwinds through a running body) the
+        checker accepts every re-entrant run.  wf_nest_fns: the functions bodies ask the
+        container to invoke are distinct from each other and from the history's functions,
+        and each is asked for by one execution of one host only (the analogue of wf_fns).
+        The absence of fuel exhaustion (AFuel: per-Invoke fuel and nesting depth) is an
+        explicit hypothesis for re-entrant runs; it is evaluated on every explored history
+        (P_Re2.case_re_ok) ---- *)
+Theorem C02_holds_reentrant : forall depth cfg b nest du h,
+  wf_scopes h = true -> wf_keys h = true -> wf_nest nest ->
+  P_Once.wf_fns h = true -> wf_nest_fns nest h ->
+  cfg_dry cfg = false -> cfg_recover cfg = true ->
+  (forall o, In o (run_re_d depth cfg b nest du h) -> so_verdict o <> VAbort AFuel) ->
+  chk_C02 h (map obs_of (run_re_d depth cfg b nest du h)) = [].
+Proof. exact P_Re2.chk_C02_re_nil. Qed.
+Print Assumptions C02_holds_reentrant.
+
+(* the general form: the only thing that can make a function run again is an abort that
+   unwinds through a running body *)
+Theorem C02_holds_reentrant_noabort : forall depth cfg b nest du h,
+  P_Once.wf_fns h = true -> cfg_dry cfg = false -> wf_nest_fns nest h ->
+  (forall o, In o (run_re_d depth cfg b nest du h) -> forall a, so_verdict o <> VAbort a) ->
+  chk_C02 h (map obs_of (run_re_d depth cfg b nest du h)) = [].
+Proof. exact P_Re2.chk_C02_re_nil_noabort. Qed.
+Print Assumptions C02_holds_reentrant_noabort.
